@@ -35,6 +35,9 @@ func runC03(p *Prog, r *Report) {
 	if want("C03.5") {
 		ruleReadSeqOrigin(p, r, "C03.5")
 	}
+	if want("C03.8") {
+		ruleLevelsImmutable(p, r, "C03.8")
+	}
 	if want("C03.7") {
 		ruleRetrySnapshotsAreCopies(p, r, "C03.7")
 	}
